@@ -378,10 +378,26 @@ theorem InvOrDone.run {fixed : Bool} {a : Nat} : ∀ (n : Nat) {x : X}, InvOrDon
   | zero => intro x h; exact h
   | succ n ih => intro x h; exact ih h.step
 
+/-- linking an orphan erases no edge -/
+theorem child_of_link_orphan {s : State} (_hi : Inv s) {c d : Nat} (hs : s.sup c = none) {w x : Nat}
+    (hc : child s w x) : child (link s c d).1 w x := by
+  rcases link_cases s c d with ⟨e, _⟩ | ⟨ks, hg, hk, hcase⟩
+  · rw [e]; exact hc
+  · rcases hcase with ⟨hs', _⟩ | ⟨_, e⟩ | ⟨q, hs', _, _⟩
+    · rw [hs] at hs'; cases hs'
+    · rw [e]
+      obtain ⟨ks', hk', hx⟩ := hc
+      by_cases ew : w = d
+      · subst ew; rw [hk] at hk'; cases hk'
+        exact ⟨ins c ks, by simp, mem_ins.mpr (.inr hx)⟩
+      · exact ⟨ks', by simp [upd_ne _ _ ew, hk'], hx⟩
+    · rw [hs] at hs'; cases hs'
+
 /-- adding the edge `d → c` (a link of an orphan) keeps everything reachable that was reachable -/
 theorem desc_link_orphan {s : State} (_hi : Inv s) {c d : Nat} (hs : s.sup c = none) {y z : Nat}
     (h : Desc s y z) : Desc (link s c d).1 y z := by
-  have hchild : ∀ w x, child s w x → child (link s c d).1 w x := by
+  have hchild : ∀ w x, child s w x → child (link s c d).1 w x := fun w x hc => child_of_link_orphan _hi hs hc
+  have hchild' : ∀ w x, child s w x → child (link s c d).1 w x := by
     intro w x hc
     rcases link_cases s c d with ⟨e, _⟩ | ⟨ks, hg, hk, hcase⟩
     · rw [e]; exact hc
